@@ -358,6 +358,9 @@ def split_cases(lines):
     return cases
 
 
+MAX_DEATHS_PER_ROUND = 40
+
+
 class CorrResult:
     def __init__(self):
         self.cases = 0
@@ -374,7 +377,14 @@ def _run_impl_cases(hcmd, cases, timeout):
     the case it was in and continue behind it.  Returns per-case (answers, viols, crash)."""
     res = [None] * len(cases)
     start = 0
+    deaths = 0
     while start < len(cases):
+        if deaths >= MAX_DEATHS_PER_ROUND:
+            # a tree on which the harness keeps dying: enough failing inputs have been collected,
+            # do not restart the process thousands of times
+            for ci in range(start, len(cases)):
+                res[ci] = ([], [], None)
+            break
         flat = [l for c in cases[start:] for l in c]
         out, rc, err = run_lines(hcmd, flat, timeout=timeout)
         # walk the output: exactly one answer line per op line, plus '#VIOL' lines
@@ -399,6 +409,7 @@ def _run_impl_cases(hcmd, cases, timeout):
                 res[ci] = (answers, viols, (rc, err[:3000] + ("\n...\n" + err[-9000:] if len(err) > 3000 else "")))
                 start = ci + 1
                 died = True
+                deaths += 1
                 break
             res[ci] = (answers, viols, None)
         if not died:
